@@ -45,7 +45,7 @@ def strategy_(draw):
         elif o == "resize":
             ops.append([o, draw(st.sampled_from(["zero", "less", "same", "more"])), draw(st.integers(0, 1000))])
         elif o == "print":
-            ops.append([o, draw(st.integers(0, 1000)), draw(st.sampled_from(["lit", "s", "li", "mix"])), draw(_operand), draw(st.integers(-1000, 1000))])
+            ops.append([o, draw(st.integers(0, 1000)), draw(st.sampled_from(["lit", "s", "li", "mix", "pct", "pct"])), draw(_operand), draw(st.integers(-1000, 1000))])
         else:
             ops.append([o])
     return {"init": init.hex(), "ops": ops}
@@ -168,6 +168,8 @@ def run_case(ctx, case):
                 fmt, args = text, []
             elif op[2] == "s":
                 fmt, args, text = b"<%s>", ["s:" + s.hex()], b"<" + s + b">"
+            elif op[2] == "pct":
+                fmt, args, text = b"%s%% of %li%%x", ["s:" + s.hex(), "i:%d" % op[4]], s + b"% of " + (b"%d" % op[4]) + b"%x"
             elif op[2] == "li":
                 fmt, args, text = b"%li;", ["i:%d" % op[4]], b"%d;" % op[4]
             else:
